@@ -3,6 +3,7 @@
 package ipc
 
 import (
+	"encoding/json"
 	"fmt"
 	"go/token"
 	"go/types"
@@ -34,17 +35,21 @@ type LoadOpts struct {
 
 // Prog is one loaded, type-checked, SSA-built program.
 type Prog struct {
-	Name    string
-	Opts    LoadOpts
-	Fset    *token.FileSet
-	Roots   []*packages.Package
-	ModPkgs map[string]*packages.Package // import path -> package (module packages only)
-	SSA     *ssa.Program
-	Funcs   []*ssa.Function // every function whose source is in a module package
-	byName  map[string]*ssa.Function
-	CG      *callgraph.Graph // Deep only
-	NPkgs   int              // all packages in the import graph
-	NFuncs  int              // all SSA functions (deep) or module functions (shallow)
+	Name     string
+	Opts     LoadOpts
+	Fset     *token.FileSet
+	Roots    []*packages.Package
+	ModPkgs  map[string]*packages.Package // import path -> package (module packages only)
+	SSA      *ssa.Program
+	Funcs    []*ssa.Function // every function whose source is in a module package (minus new helpers that are only called synchronously: their bodies are visited as part of their callers)
+	AllFuncs []*ssa.Function // every function whose source is in a module package
+	Aliases  []string        // rename aliases and transparent helpers established for this program (evidence)
+	regObjs  []types.Object  // keys this program added to the global registries (Release removes them)
+	regFns   []*ssa.Function
+	byName   map[string]*ssa.Function
+	CG       *callgraph.Graph // Deep only
+	NPkgs    int              // all packages in the import graph
+	NFuncs   int              // all SSA functions (deep) or module functions (shallow)
 }
 
 // Rel strips the module path from an import path.
@@ -135,6 +140,7 @@ func Load(name string, o LoadOpts) (*Prog, error) {
 		}
 	}
 	p.SSA.Build()
+	BuildAliases(p)
 	all := ssautil.AllFunctions(p.SSA)
 	for fn := range all {
 		if fn.Pkg == nil && fn.Parent() == nil && fn.Synthetic == "" {
@@ -163,6 +169,40 @@ func Load(name string, o LoadOpts) (*Prog, error) {
 		p.byName[FuncName(fn)] = fn
 	}
 	p.NFuncs = len(p.Funcs)
+	{
+		var pinned Pinned
+		if json.Unmarshal(pinnedJSON, &pinned) == nil {
+			p.AllFuncs = p.Funcs
+			RegisterNewHelpers(p, &pinned)
+			registerLiteralTypes(p)
+			var kept []*ssa.Function
+			for _, fn := range p.Funcs {
+				top := fn
+				for top.Parent() != nil {
+					top = top.Parent()
+				}
+				if info := helperOf(top); info != nil {
+					syncOnly := true
+					for _, s := range info.sites {
+						if _, isCall := s.(*ssa.Call); !isCall {
+							syncOnly = false
+						}
+						if isBoundWrapper(s.Parent()) {
+							syncOnly = false // wrappers are not listed themselves: keep the method visible to whole-program scans
+						}
+					}
+					if syncOnly && top == fn {
+						continue
+					}
+				}
+				kept = append(kept, fn)
+			}
+			p.Funcs = kept
+		}
+		if p.AllFuncs == nil {
+			p.AllFuncs = p.Funcs
+		}
+	}
 	if o.Deep {
 		p.NFuncs = len(all)
 		p.CG = vta.CallGraph(all, cha.CallGraph(p.SSA))
@@ -194,7 +234,43 @@ func FuncName(fn *ssa.Function) string {
 	if pk == nil {
 		return fn.String()
 	}
+	if par := fn.Parent(); par != nil && strings.HasPrefix(fn.Name(), par.Name()) {
+		return FuncName(par) + strings.TrimPrefix(fn.Name(), par.Name())
+	}
+	if f, ok := fn.Object().(*types.Func); ok && f != nil && fn.Origin() == nil && isModObj(f) && fn.Name() == f.Name() {
+		full := canonFullName(f) // "(*pkg.T).M" / "(pkg.T).M" / "pkg.F"
+		return relName(full, pk.Pkg.Path())
+	}
 	return Rel(pk.Pkg.Path()) + "." + fn.RelString(pk.Pkg)
+}
+
+// relName turns a canonical full name into "<rel pkg>.<RelString>".
+func relName(full, pkgPath string) string {
+	rel := Rel(pkgPath)
+	if strings.HasPrefix(full, "(") {
+		// "(*pkg.T).M" -> "rel.(*T).M"
+		return rel + "." + strings.Replace(full, pkgPath+".", "", 1)
+	}
+	return rel + "." + strings.TrimPrefix(full, pkgPath+".")
+}
+
+// ShortName is the canonical unqualified name of a function.
+func ShortName(fn *ssa.Function) string {
+	if fn == nil {
+		return ""
+	}
+	if o := fn.Object(); o != nil {
+		return objName(o)
+	}
+	return fn.Name()
+}
+
+// GlobalName is the canonical name of a package-level variable.
+func GlobalName(g *ssa.Global) string {
+	if o := g.Object(); o != nil {
+		return objName(o)
+	}
+	return g.Name()
 }
 
 // Func looks a module function up by FuncName; nil if absent.
@@ -305,4 +381,24 @@ func (p *Prog) ChainString(chain []*ssa.Function) string {
 		parts = append(parts, fmt.Sprintf("…(%d)…", elided))
 	}
 	return strings.Join(parts, " → ")
+}
+
+// Release removes this program's entries from the process-wide registries
+// (canonical names, helpers, wrappers) so that the program can be collected.
+// The thorough tier loads hundreds of overlay programs in one process.
+func (p *Prog) Release() {
+	canonMu.Lock()
+	for _, o := range p.regObjs {
+		delete(canonName, o)
+	}
+	canonMu.Unlock()
+	helperMu.Lock()
+	for _, f := range p.regFns {
+		delete(helperReg, f)
+		delete(boundReg, f)
+		delete(litMethods, f)
+		delete(recvAlloc, f)
+	}
+	helperMu.Unlock()
+	p.regObjs, p.regFns = nil, nil
 }
